@@ -23,8 +23,9 @@ S1Corr(p)   == << SubSeq(p, 4 + 13, 4 + 14),      \* PIDHigh
 S1HdrOK(p)  == Len(p) >= 4 + 32
 S1IsReply(p) == S1HdrOK(p) /\ S1Flags(p) >= 128
 
-RECURSIVE S1Nul(_, _, _)
-S1Nul(p, o, e) == IF o >= e THEN -1 ELSE IF p[o + 1] = 0 THEN o ELSE S1Nul(p, o + 1, e)
+S1Nul(p, o, e) ==       \* offset of the first NUL in [o, e), or -1
+    LET z == { k \in (o + 1)..e : p[k] = 0 } IN
+    IF z = {} THEN -1 ELSE (CHOOSE k \in z : \A m \in z : k <= m) - 1
 
 (* dialect strings of a negotiate request: 0x02 <non-NUL bytes> 0x00 ... tiling [o, e) *)
 RECURSIVE S1Dialects(_, _, _, _)
